@@ -385,16 +385,20 @@ func (h *vSapi) exec(op []string) {
 			res("nostream")
 			break
 		}
-		if h.parkedWriter(sid) {
-			// blocking mode: the parked call holds the stream's write lock; a second WriteSCTP would wait for that
-			// lock before doing anything at all (and could not be given a deadline) — not issued
+		if h.parkedWriter(sid) && int(u(3)) <= int(h.a.MaxMessageSize()) && s.State() == StreamStateOpen && u(3) != 0 {
+			// blocking mode: the parked call holds the stream's write lock; a second WriteSCTP that gets past the size,
+			// stream-state and empty-payload tests would wait for that lock (a sync.Mutex: no deadline) — not issued
 			res("busy")
 			break
 		}
-		if len(op) > 5 {
-			_ = s.SetWriteDeadline(time.Now().Add(time.Duration(u(5)) * time.Millisecond))
-		} else {
-			_ = s.SetWriteDeadline(time.Time{})
+		// the write deadline belongs to the stream: it is left alone while a parked call is waiting on it (the call
+		// issued now returns before it would look at the deadline)
+		if !h.parkedWriter(sid) {
+			if len(op) > 5 {
+				_ = s.SetWriteDeadline(time.Now().Add(time.Duration(u(5)) * time.Millisecond))
+			} else {
+				_ = s.SetWriteDeadline(time.Time{})
+			}
 		}
 		p := vPayload(uint64(u(3))*31+uint64(sid), int(u(3)))
 		w := &vSapiCall{id: h.nextWid, sid: sid, done: make(chan struct{})}
